@@ -232,12 +232,14 @@ def variants(ctx):
 
 def _checks_after_empty(fn):
     """Move the two range checks of mid_ below the early return of the empty string."""
-    checks = [st for st in fn.body if isinstance(st, ast.Expr) and norm(st.value).startswith('error.range_check(')]
-    early = [st for st in fn.body if isinstance(st, ast.If) and norm(st.test) == 'num == 0 or start > length']
-    if len(checks) != 2 or len(early) != 1:
-        return False
-    for c in checks:
-        fn.body.remove(c)
-    i = fn.body.index(early[0])
-    fn.body[i + 1:i + 1] = checks
-    return True
+    blocks = [fn.body] + [t.body for t in ast.walk(fn) if isinstance(t, ast.Try)]
+    for blk in blocks:
+        checks = [st for st in blk if isinstance(st, ast.Expr) and norm(st.value).startswith('error.range_check(')]
+        early = [st for st in blk if isinstance(st, ast.If) and norm(st.test) == 'num == 0 or start > length']
+        if len(checks) == 2 and len(early) == 1:
+            for c in checks:
+                blk.remove(c)
+            i = blk.index(early[0])
+            blk[i + 1:i + 1] = checks
+            return True
+    return False
